@@ -1,6 +1,24 @@
 HOOK_COMMITS = []
 NOT_APPLICABLE = {}
 META = {
+    "C02": dict(
+        engine="E3 tcp",
+        technique="Lean 4 theorems on the stream framing model for ALL chunkings over an abstract AEAD (decode∘encode, chunking independence, replay of the first 50 bytes, nonce uniqueness, truncation) and on the relay model (target receives exactly the data after the header, then FIN); differential correspondence with the real handler over loopback sockets",
+        text="Kernel-checked: for every correct AEAD and every chunking (0..16383-byte chunks, empty ones included) the reader delivers exactly the bytes written then EOF; the 50 bytes consumed by the key search are replayed; the relay model sends the target exactly the plaintext after the address header followed by FIN. The campaign compares byte-for-byte and FIN order at scripted peers.",
+        note="Partial for kernel half-close semantics and io.Copy fast paths (splice, ReadFrom/WriteTo selection), observed by the campaign only. Trusted: Lean kernel, hand models, spec-level crypto of the harness.",
+    ),
+    "C06": dict(
+        engine="E3 tcp",
+        technique="Lean 4 theorems on the handler model with logical close classes (probe silent, reads everything, close class depends only on whether the client half-closed, post-auth invalid streams closed only after the client's FIN); differential correspondence with the real handler (250-450 ms timeouts, close time from AddClosed, FIN vs RST)",
+        text="Kernel-checked on the handler state machine: a non-authenticating connection writes nothing, dials nothing, is read completely and is closed at the client's FIN or at the deadline regardless of content/length/key list/replay-cache state; authenticated streams that turn invalid are closed only after the client's FIN.",
+        note="Partial for FIN-vs-RST and wall-clock timing (kernel), observed with +-150 ms tolerance. Trusted: Lean kernel, hand model validated on ~450 scripted connections per quick run.",
+    ),
+    "C15": dict(
+        engine="E3 tcp",
+        technique="Lean 4 total decision table of connection outcomes with their metric calls (`outcome_table`), corollaries by case analysis; generated wiring facts (opened once before Handle, AddClosed once after handleConnection); differential correspondence with a per-connection recording TCPConnMetrics and socket-level byte counts",
+        text="Kernel-checked: closed exactly once and last; authenticated reported at most once and iff authentication succeeded; probe reported iff it failed, with the bytes received; counters equal the bytes that crossed for relayed connections and never exceed the bytes sent otherwise.",
+        note="Conditional on C18 (a handler panic would skip AddClosed). Trusted: Lean kernel, hand model, extractor wiring facts.",
+    ),
     "C13": dict(
         engine="E8 lock facts + E5 listeners",
         technique="Lean 4 theorem (ranked lock acquisition never deadlocks, any number of threads) instantiated with lock-order edges regenerated from the source by a typed interprocedural analysis (closures in onCloseFunc fields, interface calls); acyclicity by decide over the generated graph; stress on the real manager as failing-input search",
